@@ -510,3 +510,19 @@ Proof.
   - intros P presume plan_of D dev s l s' o Hs Hc Hb H.
     destruct (resume_pushes_cache P presume plan_of D dev s l s' o Hs Hc Hb H) as (A & _ & B & _). split; assumption.
 Qed.
+
+(* C04 end to end for resume(): after ANY schedule that leaves the engine paused, resume() pushes exactly the message
+   list that the trace specification computed, as the rewind plan, and empties the cache *)
+Theorem resume_replays_trace_spec
+  (P : Type) (presume : P -> input -> outcome P) (plan_of : nat -> P) (D : Type) (dev : D -> nat -> devmeth -> D * devres)
+  (d : D) (paus stag : list nat) (rec : bool) (evs : list event) (l : list msg) (s' : st P D) (o : list obs) :
+  let s := fst (run P presume plan_of D dev (init P D d paus stag rec) evs) in
+  state P D s = Paused ->
+  mcache (mon_run mon0 (trace P presume plan_of D dev (init P D d paus stag rec) evs)) = Some l ->
+  step P presume plan_of D dev s (EvMain AResume) = (s', o) ->
+  plans P D s' = FList l :: plans P D s /\ resps P D s' = RVal VNone :: resps P D s /\ cache P D s' = Some [] /\
+  rewindable P D s' = rewindable P D s /\ state P D s' = Paused.
+Proof.
+  cbv zeta. intros Hs Hm H. eapply resume_pushes_cache; [exact Hs | | apply reachable_bintr_ok | exact H].
+  rewrite cache_is_trace_spec. exact Hm.
+Qed.
